@@ -62,6 +62,15 @@ def templates(rng, g):
     out.append(("collect-elem-unused", f"{{X}} {gi()} ((ㄱㅇㄱ ㅈㄷㅎㄴ ㅎ) ㅂㅂㅎㄴ) ㅎㄷ"))
     out.append(("map-result-len", f"(({{X}} {{X}} ㅁㄹㅎㄷ) (ㄱㅇㄱ ㄴ ㄷㅎㄷ ㅎ) ㅁㄷㅎㄷ) ㅈㄷㅎㄴ"))
     out.append(("list-in-list-len", f"(({{X}} ㅁㄹㅎㄴ) ({{X}} {{X}} ㅁㄹㅎㄷ) ㅁㄹㅎㄷ) ㅈㄷㅎㄴ"))
+    # exception contents are as lazy as list elements: building, throwing, catching and partially inspecting an
+    # exception never evaluates the contents nobody looks at
+    # (ㄷㅂ itself evaluates its direct arguments to weak-head form — that is not a declared non-strict position;
+    # the lists / dictionaries inside stay lazy)
+    out.append(("exc-built-uninspected", f"ㄱ (ㅈ ({{X}} ㅁㄹㅎㄴ) (ㄴ {{X}} ㅅㅈㅎㄷ) ㄷㅂㅎㄹ) ㅎㄴ"))
+    out.append(("exc-thrown-uninspected", f"((ㅈ ({{X}} ㅁㄹㅎㄴ) ㄷㅂㅎㄷ) ㄷㅈㅎㄴ) (ㄱ ㄱㅇㄱ ㅎㄴ ㅎ) ㅅㄷㅎㄷ"))
+    out.append(("exc-thrown-dict-uninspected", f"((ㅈ (ㄴ {{X}} ㅅㅈㅎㄷ) ㄷㅂㅎㄷ) ㄷㅈㅎㄴ) (ㄱ ㄱㅇㄱ ㅎㄴ ㅎ) ㅅㄷㅎㄷ"))
+    out.append(("exc-thrown-handler-ignores", f"((ㅈ ({{X}} ㅁㄹㅎㄴ) ㄷㅂㅎㄷ) ㄷㅈㅎㄴ) ({gi()} ㅎ) ㅅㄷㅎㄷ"))
+    out.append(("exc-thrown-nested", f"((ㅈ (({{X}} ㅁㄹㅎㄴ) ㄴ ㅁㄹㅎㄷ) ㄷㅂㅎㄷ) ㄷㅈㅎㄴ) (ㄴ (ㄴ ㄱㅇㄱ ㅎㄴ) ㅎㄴ ㅎ) ㅅㄷㅎㄷ"))
     out.append(("closure-captured-unused", f"{{X}} ((ㄹ ㅎ) ㅎ) ㅎㄴ ㅎㄱ"))
     return out
 
@@ -84,7 +93,7 @@ SPEC = {
     'lean': ['C03'],
     'cases': cases,
     'stream': 'C03 marked-position stream',
-    'rule': '35 templates with a marked non-strict position (unused argument, arguments and list elements passed on by fold / filter / pipe / spread / collect / map to functions that ignore them, unselected Boolean branch, operands after the '
+    'rule': '40 templates with a marked non-strict position (unused argument, arguments and list elements passed on by fold / filter / pipe / spread / collect / map to functions that ignore them, exception contents built / thrown / caught but not inspected, unselected Boolean branch, operands after the '
             'deciding one of Boolean ㄱ / ㄷ, uninspected list elements / dictionary values, map over unused elements, ㄴ after '
             'the first difference, handler of a ㅅㄷ that does not raise, captured but unused argument) × random surrounding '
             'sub-expressions × 8 payloads (user exception, type error, non-terminating recursion bounded only by the '
